@@ -1,5 +1,6 @@
 import ObiVerif.Model.SeqOps
 import ObiVerif.Model.SeqHeap
+import ObiVerif.Model.SeqAnnot
 import ObiVerif.Driver.Util
 /-! line protocol for C07 -/
 namespace ObiVerif.Driver.C07
@@ -48,6 +49,50 @@ def showObj (p : String × Obj) : String :=
 def insByName (p : String × Obj) : Store → Store
   | [] => [p]
   | x :: xs => if p.1 ≤ x.1 then p :: x :: xs else x :: insByName p xs
+
+
+/-! ### whole objects (`Model/SeqAnnot.lean`) -/
+
+open ObiVerif.SeqAnnot in
+/-- `-` = attribute absent, `0` = empty map, otherwise `keyhex:pos,keyhex:pos,…` -/
+def parseMm (w : String) : Option (Option Mm) :=
+  if w = "-" then some none
+  else if w = "0" then some (some [])
+  else (w.splitOn ",").mapM (fun (e : String) => match e.splitOn ":" with
+    | [k, p] => do
+      let kb ← unhex k
+      let pv ← p.toInt?
+      pure (kb, pv)
+    | _ => none) |>.map some
+
+open ObiVerif.SeqAnnot in
+def showMm : Option Mm → String
+  | none => "-"
+  | some [] => "0"
+  | some m => ",".intercalate (((m.map fun kp => (hex kp.1, kp.2)).foldr insStr []).map fun kp => s!"{kp.1}:{kp.2}")
+
+def hasDup : List Bytes → Bool
+  | [] => false
+  | k :: t => t.contains k || hasDup t
+
+open ObiVerif.SeqAnnot in
+def showW (o : WObj) : String :=
+  s!"{hex o.seq} {if o.qual.isEmpty then "-" else hex o.qual} {showMm o.mm}"
+
+open ObiVerif.SeqAnnot in
+def parseW (s q mm : String) : Option WObj := do
+  let sb ← unhex s
+  let qb ← if q = "-" then some [] else unhex q
+  let m ← parseMm mm
+  pure ⟨sb.map lower, qb, m, []⟩
+
+open ObiVerif.SeqAnnot in
+/-- a Go map cannot hold two entries under one key: when two keys are rewritten to the same key the
+outcome depends on the iteration order (`collision`) -/
+def showRcW (o : WObj) : String :=
+  match rcW o with
+  | none => "panic"
+  | some r => if hasDup ((r.mm.getD []).map (·.1)) then "collision" else showW r
 
 /-! ### heap histories (`Model/SeqHeap.lean`) -/
 
@@ -121,6 +166,23 @@ def run (line : String) : String :=
   match words line with
   | "heap" :: ops => runHeap ops
   | "mut" :: _ => "ok"
+  | "annkinds" :: _ => "ok"
+  | ["rcw", s, q, mm] =>
+    match parseW s q mm with
+    | some o => showRcW o
+    | none => "bad-op"
+  | ["subw", s, q, mm, f, t, c] =>
+    match parseW s q mm, f.toInt?, t.toInt? with
+    | some o, some f, some t =>
+      match SeqAnnot.subW o f t (c == "1") with
+      | .ok r => "ok " ++ showW r
+      | .error .panic => "panic"
+      | .error _ => "err"
+    | _, _, _ => "bad-op"
+  | ["joinrc", s, q, s2] =>
+    match parseW s q "-", unhex s2 with
+    | some o, some s2 => showRcW (SeqAnnot.joinW o ⟨s2.map lower, [], none, []⟩)
+    | _, _ => "bad-op"
   | ["comp", b] => match b.toNat? with
     | some b => toString (nucComplement (UInt8.ofNat b)).toNat
     | none => "bad-op"
